@@ -42,7 +42,22 @@ impl PropCheck for C06 {
                 Case { group, d0, steps, style, slot_ops }
             })
             .boxed();
-        prop_oneof![5 => general, 1 => scenario(self.max_steps)].boxed()
+        // groups in which a handful of fields occur in many positions (as in C07), updated one top-level field at a time:
+        // through the engine stage these steps interleave binding-map updates and tree updates on one instance
+        let mut bcfg = self.cfg.clone();
+        bcfg.expr.idents = vec!["a", "b", "c", "list", "k", "m"];
+        let top_fields = (gen::wxml::group(&bcfg), gen::data::data_env(2), proptest::collection::vec(gen::history::step_top_fields(), 2..=self.max_steps.max(2) + 2), any::<u64>())
+            .prop_map(|(group, d0, mut steps, style)| {
+                // the fields the templates of this class read: a b c list k m (positions in gen::data::FIELD_NAMES)
+                for s in steps.iter_mut() {
+                    for e in s.edits.iter_mut() {
+                        e.aux = [0u32, 1, 2, 6, 12, 13][(e.aux % 6) as usize];
+                    }
+                }
+                Case { group, d0, steps, style: style & !3, slot_ops: vec![] }
+            })
+            .boxed();
+        prop_oneof![5 => general, 1 => scenario(self.max_steps), 2 => top_fields].boxed()
     }
 
     fn eval(&self, w: Option<&mut Worker>, cases: &[Case]) -> Result<Vec<Outcome>, String> {
@@ -404,43 +419,90 @@ pub fn eval_case(w: &mut Worker, c: &Case) -> Result<Outcome, String> {
     labels2.dedup();
     out.labels.extend(labels2);
     out.sample = Some(json!({"source": crate::util::truncate(&src0, 400), "d0": crate::util::truncate(&datas[0], 200), "d1": crate::util::truncate(&datas[1], 200), "u1": trees[0]}));
+    if !judge_history(&mut out, &resp, 0, &src0, &datas, &trees, &step_labels) {
+        return Ok(out);
+    }
+    // the same history once more through the real template engine of tmpl/index.ts (three cases in four): the engine
+    // builds the update-path tree from one replace-type change per marked leaf, or — default mode, one top-level change of
+    // an advertised field — dispatches to the binding-map updaters; tree updates and binding-map updates then interleave
+    // on one instance
+    let via = match c.style % 4 {
+        0 | 2 => 1u8,
+        1 => 2u8,
+        _ => 0u8,
+    };
+    if via != 0 && out.failures.is_empty() {
+        let req = json!({"kind":"history","bundle":compiled.bundle,"entry":"p","data":datas,"trees":trees,"slotOps":slot_ops,"viaEngine":via});
+        let resp = w.request(&req).map_err(|e| e.0)?;
+        out.labels.push(if via == 1 { "via-engine:default-mode".into() } else { "via-engine:virtualTree".into() });
+        judge_history(&mut out, &resp, via, &src0, &datas, &trees, &step_labels);
+    }
+    Ok(out)
+}
+
+/// judge one `history` response; returns false when nothing further should be asked for this case
+fn judge_history(out: &mut Outcome, resp: &Value, via: u8, src0: &str, datas: &[String], trees: &[Value], step_labels: &[Vec<String>]) -> bool {
     if let Some(e) = resp.get("error") {
         out.failures.push(Failure { sig: format!("C06|bundle-error|{}", short_hash(e.as_str().unwrap_or(""))), tag: None, what: format!("generated code does not load: {}", e), detail: json!({}) });
-        return Ok(out);
+        return false;
     }
     if resp.get("createThrew").is_some() {
         // creation itself throws for this data (a data-dependent throw such as calling a template named by a non-string):
         // nothing to compare; counted
-        out.labels.push("create-threw".into());
-        return Ok(out);
+        if via == 0 {
+            out.labels.push("create-threw".into());
+        }
+        return false;
     }
     let steps = resp["steps"].as_array().cloned().unwrap_or_default();
     if resp.get("domainExit").is_some() || steps.iter().any(|s| s.get("domainExit").is_some()) {
-        out.labels.push("domain-exit:non-unique-keys".into());
-        out.excluded += 1;
+        if via == 0 {
+            out.labels.push("domain-exit:non-unique-keys".into());
+            out.excluded += 1;
+        }
     }
-    out.units = steps.iter().map(|s| s["nodes"].as_u64().unwrap_or(0)).sum();
+    out.units += steps.iter().map(|s| s["nodes"].as_u64().unwrap_or(0)).sum::<u64>();
     let nonempty_steps = step_labels.iter().filter(|l| !l.iter().any(|x| x == "diff:empty")).count();
-    if nonempty_steps > 0 && !steps.is_empty() {
+    if via == 0 && nonempty_steps > 0 && !steps.is_empty() {
         out.nt.push(fnv64(format!("{}|{}", src0, datas.join("|")).as_bytes()));
     }
     for s in steps {
         let i = s["step"].as_u64().unwrap_or(0) as usize;
+        if s["engine"]["viaMap"].as_bool() == Some(true) {
+            out.labels.push("via-engine:step-by-binding-map".into());
+        } else if s["engine"]["n"].as_u64().is_some() {
+            out.labels.push("via-engine:step-by-tree".into());
+        }
         for m in s["mismatches"].as_array().cloned().unwrap_or_default().iter().take(2) {
             let m = Mismatch::from_json(m);
             let style = step_labels.get(i - 1).and_then(|l| l.iter().find(|x| x.starts_with("tree:"))).cloned().unwrap_or_default();
-            let sig = if m.ch == "throw" { format!("C06|throw|{}", crate::util::truncate(m.actual.split(" | ").next().unwrap_or(""), 80)) } else { format!("C06|stale|{}|{}", m.ch, style) };
+            let stage = match via {
+                0 => "",
+                1 => "via-engine|",
+                _ => "via-engine-virtualTree|",
+            };
+            let sig = if m.ch == "throw" { format!("C06|{}throw|{}", stage, crate::util::truncate(m.actual.split(" | ").next().unwrap_or(""), 80)) } else { format!("C06|{}stale|{}|{}", stage, m.ch, style) };
             // listed finding C06-F1: exactly "slot attribute value became undefined, previous slot kept"
             let tag = if m.ch == "slot" && m.expected == "undefined" { Some("slot-attr-becomes-undefined".to_string()) } else { None };
+            let how = match via {
+                0 => String::new(),
+                _ => format!(
+                    " [driven through tmpl/index.ts updateValues, mode {}, {}]",
+                    if via == 1 { "default" } else { "virtualTree" },
+                    if s["engine"]["viaMap"].as_bool() == Some(true) { "this step dispatched to the binding-map updaters".to_string() } else { format!("this step = {} replace changes", s["engine"]["n"].as_u64().unwrap_or(0)) }
+                ),
+            };
             out.failures.push(Failure {
                 sig,
                 tag,
-                what: format!("after update step {} ({}): {} (expected = fresh creation with the new data)", i, step_labels.get(i - 1).map(|l| l.join(",")).unwrap_or_default(), m.describe()),
-                detail: json!({"step": i, "data_before": datas[i - 1], "data_after": datas[i], "tree": trees[i - 1]}),
+                what: format!("after update step {} ({}){}: {} (expected = fresh creation with the new data)", i, step_labels.get(i - 1).map(|l| l.join(",")).unwrap_or_default(), how, m.describe()),
+                detail: json!({"step": i, "data_before": datas[i - 1], "data_after": datas[i], "tree": trees[i - 1], "via_engine": via}),
             });
         }
     }
-    Ok(out)
+    out.labels.sort();
+    out.labels.dedup();
+    true
 }
 
 pub fn run(tier: Tier, seed: u64, findings: &Findings) -> i32 {
